@@ -295,11 +295,18 @@ pub fn install_hook(oracle: OracleRef, registry: RegistryRef, ledger: LedgerRef)
                         }
                     }
                     if holders.len() < majority(voters.len() + 1) {
+                        // cause attribution (KF15 family): an acknowledging voter that does not hold the entry right now was
+                        // sent a prev (0,0) "start from scratch" request a moment ago and is in the middle of reset()ting its log
+                        let now = crate::oracle::vnow();
+                        let missing: Vec<u32> = ackers.iter().filter(|a| voters.contains(a) && !holders.contains(a)).copied().collect();
+                        let by_reset = !missing.is_empty()
+                            && missing.iter().all(|f| o.prev_zero_sent.get(f).is_some_and(|t| now.saturating_sub(*t) <= 2000));
                         o.violate(
                             "C09",
                             "commit_without_majority_holding",
                             json!({"leader": v.node_id, "term": v.term, "index": n, "voters_view": voters, "holders": holders,
-                                   "ackers": ackers}),
+                                   "ackers": ackers, "acked_but_not_holding": missing,
+                                   "acknowledging_voters_resetting_log_for_prev_zero_request": by_reset}),
                         );
                     }
                 }
